@@ -757,9 +757,7 @@ func Select(arr, idx *Term) *Term {
 		case OpConstArr:
 			return arr.Args[0]
 		case OpIte:
-			if idx.Op == OpConst {
-				return Ite(arr.Args[0], Select(arr.Args[1], idx), Select(arr.Args[2], idx))
-			}
+			return Ite(arr.Args[0], Select(arr.Args[1], idx), Select(arr.Args[2], idx))
 		case OpLambda:
 			return substBound(arr.Args[1], arr.Args[0], idx)
 		}
